@@ -6,6 +6,7 @@ import (
 	"bytes"
 	"fmt"
 	"strconv"
+	"strings"
 	"unicode/utf8"
 
 	"github.com/welllog/golib/algz"
@@ -28,6 +29,7 @@ func init() {
 		Rule: "one trie (pattern sets over {a,b,c,é,你,😀} biased to a long pattern that contains several disjoint short ones, touching / nested / chained occurrences; or 12–40 short patterns; or byte garbage) + 3–8 mask/replace calls; " +
 			"non-trivial = at least one call whose text holds two occurrences that overlap (naive scan); distinct by hash of the case lines",
 		Classify: classify,
+		Facts:    facts,
 		Extras: []core.Extra{{
 			Name: "exhaustive-ab",
 			Run:  exhaustive,
@@ -78,9 +80,22 @@ func stepOp(t *algz.Trie, tk []string) string {
 
 func impl(c core.Case) []string {
 	var t algz.Trie
+	cyc := ""
 	return core.RunOps(c,
-		func(hdr []string) string { return c05.RunTrie(&t, hdr) },
-		func(tk []string) string { return stepOp(&t, tk) })
+		func(hdr []string) string {
+			o := c05.RunTrie(&t, hdr)
+			if o == "ok" {
+				cyc = c05.FailCycle(&t)
+			}
+			return o
+		},
+		func(tk []string) string {
+			if cyc != "" {
+				// `find` would never return on a cyclic fail chain (and exhaust the memory)
+				return c05.CycleWord + cyc
+			}
+			return stepOp(&t, tk)
+		})
 }
 
 // ---- the property's own predicate: coverage bitmap by naive scanning
@@ -249,6 +264,9 @@ func check(c core.Case, out []string) *core.Failure {
 		if out[i] == "dead" {
 			continue
 		}
+		if strings.HasPrefix(out[i], c05.CycleWord) {
+			return &core.Failure{Key: "fail-cycle", Desc: fmt.Sprintf("after BuildFailureLinks of %q the fail chain of node %q never reaches the root (cycle): find does not terminate on a text reaching it; op %d %q was not run", all, strings.TrimPrefix(out[i], c05.CycleWord), i, c.Lines[i])}
+		}
 		tk := core.Toks(c.Lines[i])
 		if len(tk) != 3 {
 			return &core.Failure{Key: "bad-output", Desc: "bad op line " + c.Lines[i]}
@@ -411,6 +429,13 @@ func exhaustive(ctx *core.Ctx) (int, string, []core.ExtraFailure) {
 			return
 		}
 		ps := c05.NewPatSet(set)
+		if cyc := c05.FailCycle(&t); cyc != "" {
+			if !seen["fail-cycle"] {
+				seen["fail-cycle"] = true
+				fails = append(fails, core.ExtraFailure{Failure: core.Failure{Key: "fail-cycle", Desc: "the fail chain of node " + cyc + " never reaches the root"}, Payload: []string{hdr}})
+			}
+			return
+		}
 		for _, text := range texts {
 			for _, op := range ops {
 				evals++
